@@ -11,6 +11,8 @@ import HitenModel.Gen.C04
 import HitenModel.Core.Legendre
 import HitenModel.Lemmas.REReal
 import HitenModel.Lemmas.Legendre
+import HitenModel.Lemmas.LegendreUnique
+import HitenModel.Lemmas.LegendreLink
 import Mathlib.Tactic.FieldSimp
 import Mathlib.Tactic.Ring
 import Mathlib.Tactic.IntervalCases
@@ -325,6 +327,76 @@ theorem legendre_homogeneous_identity :
 example : (1 - 2 * PowerSeries.C (1 : ℚ) * PowerSeries.X + PowerSeries.C (1 : ℚ) * PowerSeries.X ^ 2)
     * PowerSeries.mk (fun _ : ℕ => (1 : ℚ)) ^ 2 = 1 :=
   legendre_generating_identity_all_degrees (R := ℚ) 1 1 (fun _ => 1) rfl rfl (fun n => by ring)
+
+/-- **inv_sqrt_unique** (`Lemmas/LegendreUnique.lean`): uniqueness of the inverse square root in `R⟦t⟧` — the step from "generating
+identity" to "`Σ T_n tⁿ` IS the Taylor series of `1/√q`".  `R` any commutative ring in which `2` is a unit (no domain hypothesis): two
+power series with constant coefficient `1` whose squares are inverse to the same `q` are equal.  (`g² = h²` since `q` is a unit;
+`(g − h)(g + h) = 0`; `g + h` has constant coefficient `2`, hence is a unit of `R⟦t⟧`.) -/
+theorem inv_sqrt_unique {R : Type*} [CommRing R] (h2 : IsUnit (2 : R)) (q g h : PowerSeries R)
+    (hg0 : PowerSeries.constantCoeff g = 1) (hh0 : PowerSeries.constantCoeff h = 1)
+    (hg : g ^ 2 * q = 1) (hh : h ^ 2 * q = 1) : g = h :=
+  LegendreGen.inv_sqrt_unique h2 q g h hg0 hh0 hg hh
+
+/-- **legendre_series_unique**: `Σ T_n tⁿ` is THE inverse square root of `1 − 2xt + st²`.  For `T` as in
+`legendre_generating_identity_all_degrees` (and `2` a unit of `R`): every power series `g` with `g(0) = 1` and
+`g²·(1 − 2xt + st²) = 1` equals `Σ T_n tⁿ`; with `legendre_generating_identity_all_degrees` this is existence and uniqueness
+(`LegendreGen.legendre_inv_sqrt_existsUnique`), so `T n` is the n-th Taylor coefficient of `1/√(1 − 2xt + st²)`. -/
+theorem legendre_series_unique {R : Type*} [CommRing R] [IsAddTorsionFree R] (h2 : IsUnit (2 : R)) (x s : R) (T : ℕ → R)
+    (h0 : T 0 = 1) (h1 : T 1 = x)
+    (hrec : ∀ n : ℕ, ((n : R) + 2) * T (n + 2) = (2 * (n : R) + 3) * (x * T (n + 1)) - ((n : R) + 1) * (s * T n))
+    (g : PowerSeries R) (hg0 : PowerSeries.constantCoeff g = 1)
+    (hg : g ^ 2 * (1 - 2 * PowerSeries.C x * PowerSeries.X + PowerSeries.C s * PowerSeries.X ^ 2) = 1) :
+    PowerSeries.mk T = g ∧ ∀ n, T n = PowerSeries.coeff n g :=
+  ⟨LegendreGen.legendre_series_unique h2 x s T h0 h1 hrec g hg0 hg,
+   LegendreGen.legendre_coeff_unique h2 x s T h0 h1 hrec g hg0 hg⟩
+
+/-- the same over a ℚ-algebra (torsion-freeness and invertibility of 2 are automatic), as an `∃!` -/
+theorem legendre_inv_sqrt_existsUnique {R : Type*} [CommRing R] [Algebra ℚ R] (x s : R) (T : ℕ → R)
+    (h0 : T 0 = 1) (h1 : T 1 = x)
+    (hrec : ∀ n : ℕ, ((n : R) + 2) * T (n + 2) = (2 * (n : R) + 3) * (x * T (n + 1)) - ((n : R) + 1) * (s * T n)) :
+    ∃! g : PowerSeries R, PowerSeries.constantCoeff g = 1 ∧
+      g ^ 2 * (1 - 2 * PowerSeries.C x * PowerSeries.X + PowerSeries.C s * PowerSeries.X ^ 2) = 1 :=
+  have : IsAddTorsionFree R := IsAddTorsionFree.of_module_rat R
+  LegendreGen.legendre_inv_sqrt_existsUnique (LegendreGen.isUnit_two_of_algebra_rat R) x s T h0 h1 hrec
+
+/-- two sequences satisfying the recurrence hypotheses (same `x`, `s`) coincide -/
+theorem legendre_sequence_unique {R : Type*} [CommRing R] [IsAddTorsionFree R] (h2 : IsUnit (2 : R)) (x s : R) (T T' : ℕ → R)
+    (h0 : T 0 = 1) (h1 : T 1 = x)
+    (hrec : ∀ n : ℕ, ((n : R) + 2) * T (n + 2) = (2 * (n : R) + 3) * (x * T (n + 1)) - ((n : R) + 1) * (s * T n))
+    (h0' : T' 0 = 1) (h1' : T' 1 = x)
+    (hrec' : ∀ n : ℕ, ((n : R) + 2) * T' (n + 2) = (2 * (n : R) + 3) * (x * T' (n + 1)) - ((n : R) + 1) * (s * T' n)) :
+    T = T' :=
+  LegendreGen.legendre_sequence_unique h2 x s T T' h0 h1 hrec h0' h1' hrec'
+
+/-- non-vacuity of `inv_sqrt_unique` / `legendre_series_unique`: over `ℚ` with `x = s = 1` (`q = (1−t)²`) the only `g` with `g(0) = 1`,
+`g²(1−t)² = 1` is `Σ tⁿ` (the other square root `−Σ tⁿ` has `g(0) = −1`); the hypotheses are satisfied by `g = Σ tⁿ` itself
+(`legendre_generating_identity_all_degrees`, example above) -/
+example (g : PowerSeries ℚ) (hg0 : PowerSeries.constantCoeff g = 1)
+    (hg : g ^ 2 * (1 - 2 * PowerSeries.C (1 : ℚ) * PowerSeries.X + PowerSeries.C (1 : ℚ) * PowerSeries.X ^ 2) = 1) :
+    g = PowerSeries.mk fun _ => (1 : ℚ) :=
+  (LegendreGen.legendre_series_unique_rat (R := ℚ) 1 1 (fun _ => 1) rfl rfl (fun n => by ring) g hg0 hg).symm
+
+/-- **legendre_list_model_denotes** (`Lemmas/LegendreLink.lean`): the executable list model `Core/Legendre.lean` on which
+`legendre_generating_identity` is computed denotes the Mathlib sequence, for every truncation degree `N`.  With
+`den : P2 → ℚ[x, s]` (`(i, j, c) ↦ c·xⁱ sʲ`, summed; `LegendreLink.coeff_den`: its coefficients are `Legendre.coeff`) and `Tw` the
+sequence of the code's recurrence in `ℚ[x, s] = MvPolynomial (Fin 2) ℚ` (`x = X 0`, `s = X 1`; `LegendreLink.toXYZ_Tw`: it maps to
+`LegendreGen.Tpoly` under `s ↦ x² + y² + z²`):
+(1) for all `N, n` the list `Ts N n` is `[T_n, …, T_0]`, entry `k` agreeing with `Tw k` on every monomial of weight `≤ N` (`x` weight 1,
+    `s` weight 2) and storing only terms of weight `k`;
+(2) for `n ≤ N` nothing is truncated: `(Ts N n).map den = [Tw n, …, Tw 0]` exactly;
+(3) `sumTs N` agrees with `Σ_{n≤N} Tw n` up to weight `N`. -/
+theorem legendre_list_model_denotes :
+    (∀ N n, List.Forall₂ (LegendreLink.Rel N) (Legendre.Ts N n) (LegendreLink.desc n)) ∧
+    (∀ N n, n ≤ N → (Legendre.Ts N n).map LegendreLink.den = (LegendreLink.desc n).map LegendreLink.Tw) ∧
+    (∀ N, LegendreLink.EqUpTo N (LegendreLink.den (Legendre.sumTs N)) (∑ k ∈ Finset.range (N + 1), LegendreLink.Tw k)) :=
+  ⟨LegendreLink.Ts_rel, LegendreLink.Ts_exact, LegendreLink.den_sumTs⟩
+
+/-- **legendre_generating_identity_list_model_all_degrees**: the Boolean that `legendre_generating_identity` evaluates in the kernel for
+`N ≤ 10` is `true` for EVERY `N` — by `legendre_list_model_denotes`, the correctness of `mulTrunc`/`normalize` up to weight `N`, and
+`legendre_truncated_identity` applied in `R = ℚ[x, s]` (weight-graded). -/
+theorem legendre_generating_identity_list_model_all_degrees (N : ℕ) :
+    (Legendre.generatingIdentity N && Legendre.homogeneous N) = true :=
+  LegendreLink.list_model_all N
 
 /-- **cn_closed_form** (n = 2, 3, 4 as traced in `Gen.C04`): `c_n` is `γ⁻³` times the weight with which `T_n` enters
 `(1−μ)/r₁ + μ/r₂` in the scaled local frame: `μ + (1−μ)(−1)ⁿ/dⁿ⁺¹` (L1, `d = (1−γ)/γ`), `(−1)ⁿ[μ + (1−μ)/dⁿ⁺¹]` (L2, `d = (1+γ)/γ`),
